@@ -1,9 +1,313 @@
-"""placeholder until the BFS engine is wired in"""
+"""C05, explicit-state part: every history of non-blocking socket calls and link
+exchange events on one data link connection between two real
+LogicalLinkControllers (no threads), states deduplicated by mc.bfs.canon.
+
+Alphabet: send on A/B (message = its index), recv on A/B, poll acks on A/B,
+receiver-busy on/off on A/B, exchange A->B, exchange B->A.  (close() of an
+established connection blocks until the peer's DM arrives, so it is exercised
+in the threaded part.)
+"""
+from mc import bfs, par, sched
+from mc.evidence import Run, sig_exc
+from sim import llcpump
+
+DLC = 2
+
+
+def msg(side, i, size):
+    head = ('%s%03d:' % (side, i)).encode()
+    return (head + bytes((i * 29 + k) & 0xFF for k in range(size)))[:max(
+        size, len(head))]
+
+
+class World(object):
+    pass
+
+
+class Spec(object):
+    skip = frozenset()
+
+    def __init__(self, cfg):
+        self.cfg = cfg
+
+    # -- initial state: an established connection --------------------------------
+    def init(self):
+        import nfc.llcp
+        cfg = self.cfg
+        opts = dict(miu=cfg['miu'], lto=500, agf=cfg['agf'], sec=False)
+        A, B = llcpump.make_pair(dict(opts), dict(opts))
+        rw_a, rw_b = cfg['rw']
+        srv = B.socket(DLC)
+        B.setsockopt(srv, nfc.llcp.SO_RCVBUF, rw_b)
+        B.setsockopt(srv, nfc.llcp.SO_RCVMIU, cfg['miu'])
+        B.bind(srv, b'urn:nfc:sn:svc')
+        B.listen(srv, 1)
+        cli = A.socket(DLC)
+        A.setsockopt(cli, nfc.llcp.SO_RCVBUF, rw_a)
+        A.setsockopt(cli, nfc.llcp.SO_RCVMIU, cfg['miu'])
+        box = {}
+        s = sched.Sched(sched.Chooser(), timer_deviations=False)
+
+        def t_connect():
+            A.connect(cli, b'urn:nfc:sn:svc')
+            box['a'] = cli
+
+        def t_accept():
+            box['b'] = B.accept(srv)
+
+        def t_pump():
+            for _ in range(12):
+                sched.vsleep(0.001)
+                llcpump.xfer(A, B)
+                llcpump.xfer(B, A)
+                if 'a' in box and 'b' in box:
+                    return
+        s.spawn(t_connect, 'connect')
+        s.spawn(t_accept, 'accept')
+        s.spawn(t_pump, 'pump')
+        s.run()
+        for t in s.threads:
+            if t.exc is not None:
+                raise t.exc
+        if 'a' not in box or 'b' not in box:
+            raise sched.HarnessError("connection set-up failed")
+        w = World()
+        w.A, w.B = A, B
+        w.sock = {'a': box['a'], 'b': box['b']}
+        w.sent = {'a': 0, 'b': 0}
+        w.rcvd = {'a': 0, 'b': 0}
+        # wire model: per direction next N(S) and the last N(R) the sender got
+        w.next_ns = {'a': 0, 'b': 0}
+        w.acked = {'a': 0, 'b': 0}
+        return w
+
+    def view(self, w):
+        return (w.A, w.B, w.sock, w.sent, w.rcvd, w.next_ns, w.acked)
+
+    # -- enabled actions --------------------------------------------------------
+    def actions(self, w):
+        n = self.cfg['n']
+        acts = [('xfer', 'a'), ('xfer', 'b')]
+        for i, side in enumerate('ab'):
+            if w.sent[side] < n[i]:
+                acts.append(('send', side))
+            acts.append(('recv', side))
+            if self.cfg.get('acks'):
+                acts.append(('acks', side))
+            if self.cfg.get('busy'):
+                acts.append(('busy', side, not w.sock[side].mode.RECV_BUSY))
+        return acts
+
+    # -- transitions --------------------------------------------------------------
+    def apply(self, w, act):
+        import nfc.llcp
+        import errno
+        cfg = self.cfg
+        llc = {'a': w.A, 'b': w.B}
+        other = {'a': 'b', 'b': 'a'}
+        bad = []
+        kind, side = act[0], act[1]
+        sock = w.sock[side]
+        try:
+            if kind == 'send':
+                m = msg(side, w.sent[side], cfg['size'])
+                try:
+                    ok = llc[side].send(sock, m, nfc.llcp.MSG_DONTWAIT)
+                except nfc.llcp.Error as e:
+                    if e.errno != errno.EWOULDBLOCK:
+                        bad.append(('bfs|send|errno=%s' % errno.errorcode.get(
+                            e.errno, e.errno), dict(act=act)))
+                else:
+                    if ok is not True:
+                        bad.append(('bfs|send|returned-false', dict(act=act)))
+                    w.sent[side] += 1
+            elif kind == 'recv':
+                if sock.recv_queue:             # non-blocking recv
+                    data = llc[side].recv(sock)
+                    want = msg(other[side], w.rcvd[side], cfg['size'])
+                    if data != want:
+                        bad.append(('bfs|recv|%s' % (
+                            'none' if data is None else
+                            'wrong-message'), dict(
+                            act=act, got=data, want=want)))
+                    w.rcvd[side] += 1
+            elif kind == 'acks':
+                llc[side].poll(sock, 'acks', 0)
+            elif kind == 'busy':
+                llc[side].setsockopt(sock, nfc.llcp.SO_RCVBSY, act[2])
+            elif kind == 'xfer':
+                fr = llcpump.xfer(llc[side], llc[other[side]])
+                if fr is not None:
+                    if fr.error is not None:
+                        bad.append(('bfs|frame-error|%s' % sig_exc(fr.error),
+                                    dict(act=act)))
+                    else:
+                        bad += self.wire(w, side, fr)
+        except sched.HarnessError:
+            raise
+        except Exception as e:
+            bad.append(('bfs|%s|%s' % (kind, sig_exc(e)),
+                        dict(act=act, error=repr(e))))
+        return bad
+
+    def wire(self, w, side, fr):
+        """Window and sequence oracle on one frame sent by `side`."""
+        other = 'b' if side == 'a' else 'a'
+        rw = {'a': self.cfg['rw'][1], 'b': self.cfg['rw'][0]}   # receiver's RW
+        bad = []
+        for p in llcpump.flatten(fr.rcvd):
+            if p.name == 'FRMR':
+                bad.append(('bfs|wire|frmr', dict(pdu=str(p))))
+            if p.name == 'I':
+                if p.ns != w.next_ns[side]:
+                    bad.append(('bfs|wire|wrong-ns', dict(
+                        ns=p.ns, want=w.next_ns[side])))
+                w.next_ns[side] = (p.ns + 1) % 16
+                out = (w.next_ns[side] - w.acked[side]) % 16
+                if out > rw[side]:
+                    bad.append(('bfs|wire|window-exceeded', dict(
+                        outstanding=out, rw=rw[side])))
+            if p.name in ('I', 'RR', 'RNR'):
+                sent = (w.next_ns[other] - w.acked[other]) % 16
+                adv = (p.nr - w.acked[other]) % 16
+                if adv > sent:
+                    bad.append(('bfs|wire|ack-beyond-sent', dict(
+                        nr=p.nr, acked=w.acked[other],
+                        next_ns=w.next_ns[other])))
+                else:
+                    w.acked[other] = p.nr
+        return bad
+
+    def check_state(self, w):
+        bad = []
+        for side, o in (('a', 'b'), ('b', 'a')):
+            if w.rcvd[side] > w.sent[o]:
+                bad.append(('bfs|received-more-than-sent', dict(side=side)))
+        return bad
+
+
+def miu_refusal(cfg):
+    """send() of MIU+1 octets is refused with EMSGSIZE, MIU octets accepted."""
+    import nfc.llcp
+    import errno
+    spec = Spec(cfg)
+    w = spec.init()
+    bad = []
+    for side, llc in (('a', w.A), ('b', w.B)):
+        sock = w.sock[side]
+        n = sock.send_miu
+        try:
+            llc.send(sock, b'x' * (n + 1), nfc.llcp.MSG_DONTWAIT)
+            bad.append(('bfs|miu|oversize-accepted', dict(side=side, miu=n)))
+        except nfc.llcp.Error as e:
+            if e.errno != errno.EMSGSIZE:
+                bad.append(('bfs|miu|errno=%s' % e.errno, dict(side=side)))
+        try:
+            llc.send(sock, b'x' * n, nfc.llcp.MSG_DONTWAIT)
+        except nfc.llcp.Error as e:
+            bad.append(('bfs|miu|full-size-refused', dict(side=side, miu=n,
+                                                          errno=e.errno)))
+        if n != cfg['miu']:
+            bad.append(('bfs|miu|negotiated', dict(send_miu=n, want=cfg['miu'])))
+    return bad
+
+
+def configs(tier):
+    out = []
+    thorough = tier == 'thorough'
+    # one direction at a time, sequence numbers wrap past 16
+    rws = range(1, 16) if thorough else (1, 2, 3, 15)
+    for rw in rws:
+        if thorough:
+            n = 2 * 16 + rw if rw <= 3 else 17 + rw
+        else:
+            n = 17 + min(rw, 3) if rw <= 3 else 17
+        out.append(dict(rw=(1, rw), n=(n, 0), miu=128, size=4,
+                        agf=rw % 2 == 0, acks=rw <= 3, busy=False))
+        out.append(dict(rw=(rw, 1), n=(0, n), miu=128, size=4,
+                        agf=rw % 2 == 1, acks=False, busy=False))
+    # both directions at once
+    pairs = [(a, b) for a in (1, 2, 3) for b in (1, 2, 3)] if thorough \
+        else [(1, 1), (2, 1), (2, 2)]
+    for rw in pairs:
+        n = (20, 20) if thorough else (4, 4)
+        out.append(dict(rw=rw, n=n if max(rw) == 1 or not thorough
+                        else (18, 6), miu=129, size=129,
+                        agf=True, acks=False, busy=False))
+    # receiver busy toggles
+    for rw in ((1, 1), (2, 2)):
+        out.append(dict(rw=rw, n=(5 if thorough else 3, 0), miu=128, size=2,
+                        agf=False, acks=True, busy=True))
+        out.append(dict(rw=rw, n=(3 if thorough else 2, 2), miu=128, size=2,
+                        agf=True, acks=False, busy=True))
+    return out
+
+
+def run_cfg(arg):
+    cfg, seed, max_states = arg
+    run = Run('C05')
+    spec = Spec(cfg)
+    for sig, detail in miu_refusal(cfg):
+        run.fail(sig, dict(detail, cfg=cfg, engine='bfs'), ('miu', repr(cfg)))
+
+    def on_violation(hist, sig, detail):
+        run.fail(sig, dict(detail, cfg=cfg, engine='bfs', history=list(hist)),
+                 (repr(cfg), tuple(hist)), deviations=len(hist))
+    depth = 100000
+    res = bfs.search(spec, depth, seed=seed, on_violation=on_violation,
+                     max_states=max_states)
+    for dg in res.digests:
+        run.nontrivial.add(dg if isinstance(dg, bytes) else repr(dg).encode())
+    out = run.export()
+    out['bfs'] = dict(cfg=cfg, states=res.states, transitions=res.transitions,
+                      depth=res.depth_completed, exhausted=res.exhausted,
+                      sound_checks=res.sound_checks)
+    return out
 
 
 def run_into(run, tier, seed):
-    return {}
+    cfgs = configs(tier)
+    max_states = 400000 if tier == 'thorough' else 60000
+    tot = dict(states=0, transitions=0, sound_checks=0, configs=len(cfgs),
+               not_exhausted=[], max_depth=0, per_config=[])
+    for res in par.pmap(run_cfg, [(c, seed, max_states)
+                                  for c in par.shuffled(cfgs, seed)]):
+        b = res.pop('bfs')
+        run.merge(res)
+        run.evaluations += b['transitions']
+        tot['states'] += b['states']
+        tot['transitions'] += b['transitions']
+        tot['sound_checks'] += b['sound_checks']
+        tot['max_depth'] = max(tot['max_depth'], b['depth'])
+        tot['per_config'].append(dict(rw=b['cfg']['rw'], n=b['cfg']['n'],
+                                      states=b['states'], depth=b['depth'],
+                                      exhausted=b['exhausted']))
+        if not b['exhausted']:
+            tot['not_exhausted'].append(b['cfg'])
+    run.sample(dict(engine='bfs', example=tot['per_config'][:3]))
+    tot['per_config'].sort(key=lambda d: (d['rw'], d['n']))
+    return dict(states=tot['states'], transitions=tot['transitions'],
+                bfs_configs=tot['configs'], bfs_max_depth=tot['max_depth'],
+                bfs_snapshot_vs_replay_checks=tot['sound_checks'],
+                bfs_not_exhausted=tot['not_exhausted'],
+                frontier_exhausted=not tot['not_exhausted'],
+                bfs_per_config=tot['per_config'])
 
 
 def replay(doc):
-    return 0
+    d = doc['detail']
+    cfg = d['cfg']
+    cfg['rw'], cfg['n'] = tuple(cfg['rw']), tuple(cfg['n'])
+    spec = Spec(cfg)
+    if 'history' not in d:
+        bad = miu_refusal(cfg)
+        print('replay:', [b[0] for b in bad])
+        return 1 if bad else 0
+    w = spec.init()
+    sigs = []
+    for act in d['history']:
+        act = tuple(act)
+        sigs += [b[0] for b in (spec.apply(w, act) or [])]
+        sigs += [b[0] for b in spec.check_state(w)]
+    print('replay:', sigs)
+    return 1 if doc['signature'] in sigs else 0
